@@ -44,6 +44,10 @@ def suppress_sets(prog, f):
             if prev is not None and prev[0] == "attempt":
                 a = K.applied_slot(prev[1])
                 if a and a[0] == "each":
+                    # a clause that re-raises (resource errors, R08.9) lets nothing continue: it is no part of the set
+                    rest = p.events[i + 1 :]
+                    if e[0] == "caught" and p.exit[0] == "raise" and not any(x[0] in ("loop", "loopend", "attempt") for x in rest):
+                        continue
                     t = tuple(names)
                     if t not in out:
                         out.append(t)
@@ -92,7 +96,9 @@ def r08_3_4(prog, rep, direction, c, slot):
             continue  # a result computed inside the member loop (judged by first-acceptor above)
         shortcuts.append(T.show(r)[:60])
     rep.check(not shortcuts, "R08.4", c.qualname, f.loc, "no answer is given before the members are asked in declared order (None -> None excepted)", f"a short-cut returns {shortcuts[0] if shortcuts else ''} before the member loop: an input that an earlier member accepts and converts (2.5 for Union[int, float], a datetime for Union[date, datetime]) is answered out of order", detail="only-members-answer")
-    falls = [p for p in ps if p.exit[0] != "return"]
+    # (a handler that re-raises what it caught -- resource errors, R08.9 -- is not "exhausting the members")
+    reraised = lambda p: p.exit[0] == "raise" and (len(p.exit) < 2 or p.exit[1] is None or p.exit[1] == ("const", None) or p.exit[1][0] in ("reraise", "caught", "exc")) and any(e[0] == "caught" for e in p.events)  # noqa: E731
+    falls = [p for p in ps if p.exit[0] != "return" and not reraised(p)]
     ok = bool(falls) and all(p.exit[0] == "raise" and T.is_call_to(p.exit[1], "builtins.ValueError") for p in falls)
     rep.check(ok, "R08.4", c.qualname, f.loc, "falling out of the loop raises ValueError", "a path that exhausts the members does not raise ValueError", detail="terminal")
     # None fast path
@@ -323,7 +329,61 @@ def r08_7(prog, rep, rule="R08.7"):
         rep.check(ok, rule, c.qualname, f.loc, f"{d}: the None member returns only when the input is None and raises otherwise", f"{d}: the routine serving NoneType returns for inputs that are not None: in a union it is a catch-all, so a value every real member rejected is passed through raw instead of raising (Optional[Literal[1, 2]] lets 3 through)", detail=d)
 
 
+def r08_9(prog, rep):
+    """A member that runs out of stack has not *rejected* the input.  If the union swallows RecursionError (it is an
+    Exception) and offers the input to the next member, every level of a recursive union retries its remaining members at
+    the bottom of the stack: 2^depth attempts -- unmarshal(J, "a") for J = "dict[str, J] | list[J] | int | None" never
+    returns (a one-character string iterates to itself) -- and a value that is merely deep is reported as 'not one of
+    types'.  The first handler that would catch RecursionError / MemoryError around the member call must re-raise."""
+    import ast as _ast
+
+    n = 0
+    for d in ("marshal", "unmarshal"):
+        rows = C.handlers(prog, d)
+        row = next((r for r in rows if r.pred_name == "isuniontype" and r.routine is not None), None)
+        if row is None:
+            rep.undecided("R08.9", f"{d}:union", "", "union routine not found")
+            continue
+        f = C.call_of(prog, row.routine)
+        mod = f.module
+        swallowed = []
+        guarded_sites = 0
+        for node in _ast.walk(f.node):
+            names_body = None
+            if isinstance(node, _ast.With):
+                for item in node.items:
+                    ce = item.context_expr
+                    if isinstance(ce, _ast.Call) and prog.resolve_expr_name(mod, ce.func) == "contextlib.suppress":
+                        names = [prog.resolve_expr_name(mod, a) or "?" for a in ce.args]
+                        names_body = [(names, "suppress")]
+            elif isinstance(node, _ast.Try):
+                names_body = []
+                for h in node.handlers:
+                    if h.type is None:
+                        names = ["builtins.BaseException"]
+                    else:
+                        names = [prog.resolve_expr_name(mod, e) or "?" for e in (h.type.elts if isinstance(h.type, _ast.Tuple) else [h.type])]
+                    reraises = len(h.body) == 1 and isinstance(h.body[0], _ast.Raise) and (h.body[0].exc is None or (isinstance(h.body[0].exc, _ast.Name) and h.name == h.body[0].exc.id))
+                    names_body.append((names, "reraise" if reraises else "handler"))
+            if not names_body:
+                continue
+            # only blocks that contain a call of a member routine (a call of the loop variable / an element of the routines)
+            body = node.body
+            if not any(isinstance(x, _ast.Call) and isinstance(x.func, _ast.Name) for st in body for x in _ast.walk(st)):
+                continue
+            guarded_sites += 1
+            for exc in ("builtins.RecursionError", "builtins.MemoryError"):
+                first = next(((names, kind) for names, kind in names_body if oracle.exc_covered(exc, names)), None)
+                if first is not None and first[1] != "reraise":
+                    swallowed.append(exc.rsplit(".", 1)[1])
+        n += 1
+        rep.check(guarded_sites > 0 and not swallowed, "R08.9", row.routine.qualname, f.loc, "running out of stack or memory in a member is not taken for a rejection (re-raised before the catch-all)", f"the union swallows {sorted(set(swallowed))} together with the members' rejections and goes on to the next member: every level of a recursive union then retries its remaining members at the bottom of the stack (2^depth attempts: unmarshal(J, 'a') for J = 'dict[str, J] | list[J] | int | None' never returns), and a valid value that is merely deep is reported as 'not one of types'", detail="resource-errors-propagate")
+    return n
+
+
 def run(prog: Program, rep: Report, tier: str):
+    rep.rule("R08.9", "a member running out of stack or memory is not a rejection", floor=2)
+    r08_9(prog, rep)
     rep.rule("R08.7", "the None member accepts only None, in both directions", floor=2)
     rep.rule("R08.6", "optional detection examines every member", floor=2)
     rep.rule("R08.1", "member stack keeps declared order (identity / stable none-first)", floor=2)
